@@ -141,6 +141,29 @@ Section C08.
       (MV (rq_key d) = Ok l \/ MVP (rq_key d) = Ok l) /\ In tv l.
   Proof. intros fuel g f t rqv ty W. exact (edges_sat _ _ _ _ _ _ _ _ _ W fuel g f t rqv ty). Qed.
 
+  (* pip's prerelease rule pinned down: the target is admitted by the edge's requirement d in the mode
+     findMatches uses for a list reqs of requirements that versions known to the client place on the
+     target's package: plain matchingVersions unless reqs has more than one element and one of them
+     names a prerelease itself (any_pre).  In particular, if no requirement on that package names a
+     prerelease, the target is in matchingVersions d. *)
+  Theorem C08_edges_sat_rule : forall fuel g f t rqv ty,
+    WF -> Resolve fuel = Ok g -> In (f, t, rqv, ty) (g_edges g) ->
+    exists tv d reqs l,
+      nth_error (g_nodes g) t = Some tv /\ In d reqs /\ rq_ver d = rqv /\ rq_type d = ty /\
+      (forall r, In r reqs -> rq_name r = vk_name tv /\ exists par lr, c_requirements par = Ok lr /\ In r lr) /\
+      gm c_versions c_matching has_pre constraint_ok match_pre ver_lt root (any_pre has_pre reqs) (rq_key d) = Ok l /\
+      In tv l.
+  Proof. intros fuel g f t rqv ty W. exact (edges_sat_rule _ _ _ _ _ _ _ _ _ W fuel g f t rqv ty). Qed.
+
+  (* every node is reachable from the root along edges that ARE requirements of their source version
+     (edges drawn from a replaced version's requirement, F-C08-4, are not used), for clients whose
+     MatchingVersions answers are Concrete versions (checked on every recorded table) *)
+  Theorem C08_reachable_req : forall fuel g i w,
+    WF -> (forall k l v, c_matching k = Ok l -> In v l -> vk_type v = version_type_concrete) ->
+    Resolve fuel = Ok g -> nth_error (g_nodes g) i = Some w ->
+    reach_req c_requirements (g_nodes g) (g_edges g) i.
+  Proof. intros fuel g i w W. exact (reachable_req _ _ _ _ _ _ _ _ _ W fuel g i w). Qed.
+
   (* every node is reachable from the root (hasRouteToRoot is sound) *)
   Theorem C08_reachable : forall fuel g i w,
     WF -> Resolve fuel = Ok g -> nth_error (g_nodes g) i = Some w -> reach_idx (g_edges g) i.
@@ -174,6 +197,8 @@ Print Assumptions C08_root_fixed.
 Print Assumptions C08_root_pin_fixed.
 Print Assumptions C08_false_marker_nothing_partial.
 Print Assumptions C08_edges_sat.
+Print Assumptions C08_edges_sat_rule.
+Print Assumptions C08_reachable_req.
 Print Assumptions C08_reachable.
 Print Assumptions C08_edges_complete_sat_partial.
 
@@ -214,6 +239,22 @@ Definition C08_false_marker_full : Prop :=
 Theorem C08_false_marker_refuted_stale : ~ C08_false_marker_full.
 Proof. exact false_marker_refuted_stale. Qed.
 Print Assumptions C08_false_marker_refuted_stale.
+
+(* Every edge stands for a requirement of its source version.  FALSE of the resolver as written; what
+   holds is C08_false_marker_nothing_partial: the requirement belongs to some version of the source's
+   package that was pinned at some point. *)
+Definition C08_edges_sound_full : Prop :=
+  forall c_versions c_requirements c_matching marker_true has_pre constraint_ok match_pre ver_lt root g,
+    client_wf c_versions c_requirements c_matching ->
+    (forall v l, c_requirements v = Ok l -> NoDup (map rq_name l)) ->
+    resolve c_versions c_requirements c_matching marker_true has_pre constraint_ok match_pre ver_lt root = Ok g ->
+    edges_sound_clause c_requirements g.
+
+(* F-C08-4: root -> q; q 2.0 -> x>=1.0, y; q 1.0 -> x, y; y -> q<2.  q 2.0 is pinned and replaced by
+   q 1.0; the graph has an edge q 1.0 -> x labelled >=1.0, which q 1.0 does not require. *)
+Theorem C08_edges_sound_refuted_stale : ~ C08_edges_sound_full.
+Proof. exact edges_sound_refuted_stale. Qed.
+Print Assumptions C08_edges_sound_refuted_stale.
 
 (* Non-vacuity: a well-formed client (answers of the Go LocalClient for a seven-package universe
    with a false marker, an extra and a conflict) on which the resolution backtracks once and
